@@ -147,6 +147,11 @@ class World:
         """Engines other than S: a firing of the in-library monitor is counted;
         it becomes a C01 violation when this run is a slice of the C01 check."""
         from sim import world as W
+        if W.MON.fired and getattr(self, "lib_raised", False):
+            # the request ended in an exception: a temporary that was built before the library
+            # noticed and refused is not a diagram that was handed back
+            self.note("monitor_fired_before_a_refusal", len(W.MON.fired))
+            W.MON.fired.clear()
         if W.MON.fired:
             msg, cls = W.MON.fired[0]
             n = len(W.MON.fired)
